@@ -4,6 +4,7 @@ import (
 	"bytes"
 	"fmt"
 	"math/big"
+	"os"
 	"testing"
 
 	"pgregory.net/rapid"
@@ -133,6 +134,9 @@ var groupNames = []string{"k256", "p256", "pallas", "vesta", "ed25519", "ed25519
 
 func drawGroup(t *rapid.T) *group {
 	tables()
+	if only := os.Getenv("VERIF_C13_ONLY"); only != "" { // development aid: one group only
+		return groupBy[rapid.SampledFrom([]string{only}).Draw(t, "group")]
+	}
 	return groupBy[rapid.SampledFrom(groupNames).Draw(t, "group")]
 }
 
@@ -638,7 +642,9 @@ func TestAffineConstructors(t *testing.T) {
 			want = z
 		case "neg-y":
 			want = m.Neg(e.pt)
-			_, y = coordBytes(g, want)
+			if !m.IsNeutral(want) {
+				x, y = coordBytes(g, want)
+			}
 		}
 		member := valid && (!g.prime || inSubgroup(m, want))
 		desc := vlib.Desc(g.name, e.class, mut)
